@@ -2429,10 +2429,12 @@ namespace igris
             if (this == &other)
                 return *this;
             clear();
-            m_size = other.m_size;
-            for (igris::size_t pos = 0; pos < m_size; ++pos)
+            // the size follows every constructed element: if a copy
+            // constructor throws, only what was built is owned
+            while (m_size < other.m_size)
             {
-                new (&_data[pos]) T(other[pos]);
+                new (&_data[m_size]) T(other[m_size]);
+                ++m_size;
             }
             return *this;
         }
@@ -2442,10 +2444,10 @@ namespace igris
             if (this == &other)
                 return *this;
             clear();
-            m_size = other.m_size;
-            for (igris::size_t pos = 0; pos < m_size; ++pos)
+            while (m_size < other.m_size)
             {
-                new (&_data[pos]) T(igris::move(other[pos]));
+                new (&_data[m_size]) T(igris::move(other[m_size]));
+                ++m_size;
             }
             other.clear();
             return *this;
